@@ -36,7 +36,18 @@ def _one(ctx, C, Pc, tol, kind, meta):
     opq = C._pq_completion
 
     def pq(Pp, *a, **k):
-        q = opq(Pp, *a, **k)
+        # the roots numpy hands to the glue of _pq_completion are recorded (first call of Polynomial.roots inside it)
+        oroots = np.polynomial.Polynomial.roots
+
+        def roots(self_, *a_, **k_):
+            r_ = oroots(self_, *a_, **k_)
+            rec.setdefault("roots", np.array(r_, dtype=complex, copy=True))
+            return r_
+        np.polynomial.Polynomial.roots = roots
+        try:
+            q = opq(Pp, *a, **k)
+        finally:
+            np.polynomial.Polynomial.roots = oroots
         rec["Q"] = np.array(q.coef, dtype=complex)
         return q
     C._pq_completion = pq
@@ -93,6 +104,31 @@ def _one(ctx, C, Pc, tol, kind, meta):
         if len(mf) != len(cf) or len(mg) != len(cg) or any(abs(a - b) > Fraction(1, 2 ** 44) * big for a, b in zip(cf + cg, mf + mg)):
             ctx.violation("c05:glue", "F, G differ from the interleaving of the Chebyshev coefficients of P and of the completing Q (slots, signs or mirroring changed)",
                           dict(replay, model=mo[:300]), found_input=False)
+    # glue of the oracle stage itself (C05c): from the roots numpy returned, the classification with tol 1e-6, the removal of
+    # the roots nearest +-1, sorting, pairing / means, the added negatives, the product and the normalisation ratio of the
+    # model `pqComplete` must give the Q the library built
+    if "Q" in rec and "roots" in rec and len(rec["roots"]) <= 40:
+        pc_ = np.array(Pc, dtype=complex)
+        lead = (1. - np.polynomial.Polynomial(pc_) * np.polynomial.Polynomial(np.conj(pc_))).coef[-1]
+        cqs = lambda z: "%s;%s" % (rs(F(float(complex(z).real))), rs(F(float(complex(z).imag))))
+        mo = drv.ask("pq.complete %s %s %s" % (rs(Fraction(1, 10 ** 6)), ",".join(cqs(z) for z in rec["roots"]) or "-", rs(F(float(np.real(lead))))))
+        ctx.count("pq-glue-compared" if mo != "none" else "pq-glue:model-none")
+        if mo != "none" and not mo.startswith("bad"):
+            parts = mo.split()
+            mq = [complex(core.fl(core.pr(t.split(";")[0])), core.fl(core.pr(t.split(";")[1]))) for t in parts[3].split(",")] if parts[3] != "-" else []
+            ratio = core.fl(core.pr(parts[4]))
+            lib = rec["Q"]
+            if ratio <= 0 or len(mq) != len(lib):
+                ctx.violation("c05:pq-glue", "the completing Q has %d coefficients, the model of _pq_completion's glue %d (ratio under the root %.3e)" % (len(lib), len(mq), ratio),
+                              dict(replay, model=mo[:300]), found_input=False)
+            else:
+                mqs = np.array(mq) * np.sqrt(ratio)
+                scale = max(1e-300, float(np.max(np.abs(mqs))))
+                worst = float(np.max(np.abs(mqs - lib))) / scale
+                ctx.extra["worst_pq_glue_relative_difference"] = max(ctx.extra.get("worst_pq_glue_relative_difference", 0.0), worst)
+                if worst > 1e-9:
+                    ctx.violation("c05:pq-glue", "the completing Q differs from the model of _pq_completion's glue applied to the same roots (relative %.3e): classification, "
+                                  "pairing, signs or normalisation changed" % worst, dict(replay, model=mo[:300]), found_input=False)
     if not v["ok"]:
         what = "completion not unitary within tol" if v["stage"] == 0 else "Hadamard-conjugated corner of the completion differs from P by more than 1e-9*|P|_1"
         replay.update({"validator": line[:200]})
@@ -101,7 +137,7 @@ def _one(ctx, C, Pc, tol, kind, meta):
 
 
 def run(tier, seed):
-    ctx = core.Ctx(PROP, tier, seed, "translation_validation", ["C05", "C05b"])
+    ctx = core.Ctx(PROP, tier, seed, "translation_validation", ["C05", "C05b", "C05c"])
     ctx.axioms = core.audit(ctx.modules)
     import pyqsp.completion as C
     rng = ctx.rng
@@ -163,7 +199,7 @@ def run(tier, seed):
 def replay(path):
     import json
     c = json.load(open(path))
-    ctx = core.Ctx(PROP, "quick", c.get("seed", 0), "translation_validation", ["C05", "C05b"])
+    ctx = core.Ctx(PROP, "quick", c.get("seed", 0), "translation_validation", ["C05", "C05b", "C05c"])
     import pyqsp.completion as C
     Pc = [complex(a, b) for a, b in zip(c["poly_re"], c["poly_im"])]
     out = one(ctx, C, Pc, ("default" if c.get("tol_left_to_library_default") else c["tol"]), c.get("kind", "?"), {})
